@@ -43,14 +43,14 @@ def run(ctx, kinds):
         for (i, c, m, o) in mm[:2]:
             if c.startswith("memfs"):
                 ctx.violation("conc-tie", "the instrumented MemFS and the extracted model Conc/MemConc.v disagree on a known-finding witness (same program, same schedule: results / lock trace / final tree differ)",
-                              {"stream": STREAM, "engine": "conc", "case": c, "model": m, "observed": o})
+                              {"conc_stream": STREAM, "engine": "conc", "case": c, "model": m, "observed": o})
     # 2. the exploration
     mm = overlay.stream(ctx, "conc", "conc", "conc")
     if mm is None:
         return
     for (i, c, m, o) in mm[:2]:
         ctx.violation("conc-tie", "the instrumented MemFS and the extracted model Conc/MemConc.v disagree (same program, same schedule: results / lock trace / final tree differ) on %d explored executions" % len(mm),
-                      {"stream": STREAM, "engine": "conc", "case": c, "model": m, "observed": o, "mismatching_cases_in_run": len(mm)})
+                      {"conc_stream": STREAM, "engine": "conc", "case": c, "model": m, "observed": o, "mismatching_cases_in_run": len(mm)})
     fs = load_findings(ctx, "conc")
     per_class, unclassified = {}, []
     for f in fs:
@@ -73,7 +73,7 @@ def run(ctx, kinds):
     for kid, f in unclassified[:3]:
         why = "matches no listed known-finding class" if kid is None else "falls in class %s, which is not listed as an open known finding" % kid
         ctx.violation("conc-" + f["kind"], "%s: %s; %s [%s | %d executions]" % (f["fs"], KIND_TEXT[f["kind"]], why, f["program"], f["count"]),
-                      {"stream": STREAM, "engine": "conc", "case": f["case"], "observed": f["observed"], "kind": f["kind"], "signature": f["sig"],
+                      {"conc_stream": STREAM, "engine": "conc", "case": f["case"], "observed": f["observed"], "kind": f["kind"], "signature": f["sig"],
                        "sequential_outcomes": f.get("sequential_outcomes"), "unclassified_signatures_in_run": len(unclassified)})
     ctx.coverage["known_finding_classes"] = {k: {"executions": v["executions"], "signatures": v["signatures"], "call_pairs": sorted(v["pairs"])}
                                              for k, v in sorted(per_class.items())}
